@@ -272,7 +272,13 @@ fn signed_zero_x(r: &mut Rng, n: usize, k: usize) -> Vec<f64> {
     let v = if k <= 5 { integer_x(r, n) } else { quarter_x(r, n) };
     v.into_iter().enumerate().map(|(i, t)| if t == 0.0 && (i % 2 == 0 || r.coin(0.5)) { -0.0 } else { t }).collect()
 }
-const NFAM: usize = 10;
+const NFAM: usize = 11;
+/// all abscissae within 2^-e (e = 6..20) of 0: an ordinary fit in t = x 2^e (seeded change C14-10 dropped terms below machine epsilon
+/// from the products, which matters exactly here)
+fn tiny_cluster_x(r: &mut Rng, n: usize) -> Vec<f64> {
+    let w = pow2(-(6 + r.below(15) as i32));
+    (0..n).map(|_| w * r.uniform(-1.0, 1.0)).collect()
+}
 fn abscissae2(r: &mut Rng, fam: usize, n: usize, k: usize) -> (Vec<f64>, &'static str) {
     match fam % NFAM {
         5 => (equispaced_x(r, n), "equispaced"),
@@ -280,6 +286,7 @@ fn abscissae2(r: &mut Rng, fam: usize, n: usize, k: usize) -> (Vec<f64>, &'stati
         7 => (subinterval_x(r, n), "subinterval"),
         8 => (near_duplicate_x(r, n, k), "near-duplicates"),
         9 => (signed_zero_x(r, n, k), "signed-zero-integer"),
+        10 => (tiny_cluster_x(r, n), "tiny-cluster-at-0"),
         f => abscissae(r, f, n, k),
     }
 }
@@ -327,6 +334,14 @@ fn check_fit(s: &mut Search, r: &mut Rng, k: usize, x: &[f64], y: &[f64], fname:
     let ymax = y.iter().fold(0.0f64, |m, v| m.max(v.abs()));
     let sc = if ymax.is_finite() && ymax > 0.0 && (ymax > pow2(200) || ymax < pow2(-200)) { pow2(ymax.log2().floor() as i32) } else { 1.0 };
     let z: Vec<f64> = y.iter().map(|v| v / sc).collect();
+    // abscissae clustered around 0 (all within a width w < 1/16): the fit is an ordinary one in the variable t = x / w, w a power of two
+    // (p(x) = sum_j (c_j w^j) t^j, an exact rescaling), so the clauses are evaluated in t, where the conditioning of V^T V is that of
+    // the scaled problem (a least-squares polynomial does not depend on the unit of x)
+    let xmax = x.iter().fold(0.0f64, |m, v| m.max(v.abs()));
+    let w = if xmax > 0.0 && xmax < 1.0 / 32.0 { pow2(xmax.log2().ceil() as i32 - 1) } else { 1.0 };
+    let x_orig: &[f64] = x;
+    let xt: Vec<f64> = x.iter().map(|v| v / w).collect();
+    let x: &[f64] = &xt;
     let rf = match reference(k, x, &z) { Some(rf) => rf, None => { s.cov.cell(fname, k)[1] += 1.0; return; } };
     { let c = s.cov.cell(fname, k); c[0] += 1.0; c[3] = c[3].max(rf.kappa); c[4] = c[4].max(n as f64); c[5] = c[5].max(ymax); }
     let out = &mut s.out;
@@ -334,7 +349,7 @@ fn check_fit(s: &mut Search, r: &mut Rng, k: usize, x: &[f64], y: &[f64], fname:
         Err(e) => out.push(Finding { class: "fit:valid-input-panics".into(), what: format!("fit panicked on {} points with {} distinct abscissae ({} family, cond(V^T V) ~ {:e}): {}", n, distinct.len(), fname, rf.kappa, e), input: input.clone() }),
         Ok((c, _)) if c.len() != k => out.push(Finding { class: "fit:wrong-coefficient-count".into(), what: format!("fit returned {} coefficients for degree {}", c.len(), k - 1), input: input.clone() }),
         Ok((c, pred)) => {
-            let cd: Vec<DD> = c.iter().map(|v| DD::of(*v / sc)).collect();
+            let cd: Vec<DD> = c.iter().enumerate().map(|(j, v)| DD::of(*v / sc * w.powi(j as i32))).collect();
             // (a) coefficients against the double-double least-squares solution
             let err = (0..k).map(|j| cd[j].sub(rf.cref[j]).abs()).fold(0.0, f64::max);
             if !(err <= rf.tol_c) {
@@ -356,7 +371,7 @@ fn check_fit(s: &mut Search, r: &mut Rng, k: usize, x: &[f64], y: &[f64], fname:
                 if !(d >= -2.0 * h.abs() * tol_o - 1e-28 * rss0.abs()) { out.push(Finding { class: "fit:perturbation-lowers-rss".into(), what: format!("rss(c + {:e} e_{}) - rss(c) = {:e} < 0 for the fitted c = {:?} (responses in units of {:e})", h, j, d, c, sc), input: input.clone() }); break 'pert; }
             }}
             // (d) exact-integer data generated by a polynomial of that degree are reproduced
-            if let (Some(c0), true, true) = (c0, exact, sc == 1.0) {
+            if let (Some(c0), true, true) = (c0, exact, sc == 1.0 && w == 1.0) {
                 let e0 = (0..k).map(|j| (c[j] - c0[j]).abs()).fold(0.0, f64::max);
                 if !(e0 <= rf.tol_c) { out.push(Finding { class: "fit:polynomial-not-reproduced".into(), what: format!("data generated exactly by {:?} were fitted as {:?} (deviation {:e}, tolerance {:e})", c0, c, e0, rf.tol_c), input: input.clone() }); }
             }
@@ -364,7 +379,7 @@ fn check_fit(s: &mut Search, r: &mut Rng, k: usize, x: &[f64], y: &[f64], fname:
             //     reproduced BY THE PREDICTIONS: |pred_i - y_i| <= (deviation the conditioning grants) + (2-norm of the rounding of the data)
             if pred.len() != n { out.push(Finding { class: "predict:wrong-length".into(), what: format!("predict after fit returned {} values for {} points", pred.len(), n), input: input.clone() }); }
             else {
-                let dmax = match c0 { Some(c0) if !exact => x.iter().map(|xi| (2 * k + 2) as f64 * f64::EPSILON * c0.iter().enumerate().map(|(j, cj)| cj.abs() * xi.abs().powi(j as i32)).sum::<f64>()).fold(0.0, f64::max), _ => 0.0 };
+                let dmax = match c0 { Some(c0) if !exact => x.iter().map(|xi| (2 * k + 2) as f64 * f64::EPSILON * c0.iter().enumerate().map(|(j, cj)| cj.abs() * (xi * w).abs().powi(j as i32)).sum::<f64>()).fold(0.0, f64::max), _ => 0.0 };
                 for i in 0..n {
                     let pw: f64 = (0..k).map(|j| x[i].abs().powi(j as i32)).sum();
                     let mag: f64 = (0..k).map(|j| cd[j].abs() * x[i].abs().powi(j as i32)).sum();
@@ -386,13 +401,13 @@ fn check_fit(s: &mut Search, r: &mut Rng, k: usize, x: &[f64], y: &[f64], fname:
             if let Some(fam2) = refit {
                 let (x2, _) = abscissae2(r, fam2, n, k); let (y2, _, _) = responses(r, &x2, k, false);
                 crumb(&format!("fit({}) then refit {}", desc(k, &x2, &y2), input));
-                let again = catch(|| { let mut p = PolynomialRegressor::new(k - 1); p.fit(&x2, &y2); p.fit(x, y); p.coef.clone() });
+                let again = catch(|| { let mut p = PolynomialRegressor::new(k - 1); p.fit(&x2, &y2); p.fit(x_orig, y); p.coef.clone() });
                 s.tried += 1;
                 let same = |a: &Result<Vec<f64>, String>| match a { Ok(a) => a.len() == c.len() && a.iter().zip(c).all(|(u, v)| u.to_bits() == v.to_bits()), Err(_) => false };
                 if !same(&again) { out.push(Finding { class: "fit:history-dependent".into(), what: format!("refitting after an earlier fit gave {:?}, a fresh regressor gives {:?}", again, c), input: input.clone() }); }
                 let d0 = (k + 2) % 7;
                 crumb(&format!("new({}), coef = [7; {}], then {}", d0, k, input));
-                let field = catch(|| { let mut p = PolynomialRegressor::new(d0); p.coef = vec![7.0; k]; let q = p.fit(x, y).predict(x); (p.coef.clone(), q) });
+                let field = catch(|| { let mut p = PolynomialRegressor::new(d0); p.coef = vec![7.0; k]; let q = p.fit(x_orig, y).predict(x_orig); (p.coef.clone(), q) });
                 s.tried += 1;
                 let same2 = match &field { Ok((a, q)) => same(&Ok(a.clone())) && q.len() == pred.len() && q.iter().zip(pred).all(|(u, v)| u.to_bits() == v.to_bits()), Err(_) => false };
                 if !same2 { out.push(Finding { class: "fit:history-dependent".into(), what: format!("a regressor whose {} coefficients were set through the public field gave {:?}, a fresh one {:?}", k, field.map(|f| f.0), c), input: input.clone() }); }
@@ -478,7 +493,8 @@ pub fn oracle(tier: &str, seed: u64) -> (u64, Vec<Finding>) {
         let nsc = if n <= 20 { SCALES.len() } else if n < 500 { if thorough { 6 } else { 2 } } else if thorough { 3 } else { 1 };
         for _ in 0..nsc {
             turn += 1;
-            let (noise, e) = SCALES[turn % SCALES.len()];
+            // (the tiny cluster at 0 with moderate responses only: its coefficients are c_j / w^j, up to 2^120 times the responses)
+            let (noise, e) = if fam % NFAM == 10 { SCALES[turn % 9] } else { SCALES[turn % SCALES.len()] };
             let (x, fname) = abscissae2(&mut r, fam, n, k);
             let grid = matches!(fam % NFAM, 3 | 4 | 9);
             let integer = grid && noise == 0.0 && e == 0 && turn % 2 == 0;
